@@ -444,6 +444,10 @@ func runCore(t *testing.T, cfg coreCfg) {
 			tok, tbad := m.OrdTieStats()
 			st.Count("ordered_refinement_no_clock_assumption_steps_ok", tok)
 			st.Count("ordered_refinement_no_clock_assumption_steps_failed", tbad)
+			// the fragment of C05_fragment_dl (everything but seeks): steps inside, non-seek steps outside
+			din, dout := m.OrdFragDLStats()
+			st.Count("fragment_all_but_seek_steps_inside", din)
+			st.Count("fragment_all_but_seek_non_seek_steps_outside", dout)
 		}
 		if d != nil {
 			kind := mismatchKind(d.Answer)
